@@ -12,6 +12,7 @@ import (
 	"helm.sh/helm/v4/pkg/storage/driver"
 
 	"verif/harness/internal/core"
+	"verif/harness/internal/hx"
 )
 
 // The engine-level probes (confine_funcs.go) decide what a template can do with
@@ -25,7 +26,8 @@ type cfActCase struct {
 	Entry     string `json:"entry"`   // install | upgrade
 	DryRun    string `json:"dry_run"` // "" (real run) | client | server | client-only (helm template)
 	EnableDNS bool   `json:"enable_dns"`
-	Nested    bool   `json:"nested"` // the call sits in a value rendered through tpl
+	Nested    bool   `json:"nested"`              // the call sits in a value rendered through tpl
+	NoGetter  bool   `json:"no_getter,omitempty"` // Configuration without a RESTClientGetter (printing fake client)
 }
 
 func cfActChart(version string, nested bool) *chart.Chart {
@@ -42,7 +44,14 @@ func cfActChart(version string, nested bool) *chart.Chart {
 func cfActRun(w *cfWorld, a cfActCase) (manifest string, dials int64, err error) {
 	mem := driver.NewMemory()
 	mem.SetNamespace("default")
-	cfg := &action.Configuration{KubeClient: &kubefake.PrintingKubeClient{Out: io.Discard}, Releases: storage.Init(mem), Capabilities: chartutil.DefaultCapabilities}
+	// the real kube.Client over the simulated API server, with a RESTClientGetter: this is the configuration in which
+	// renderResources builds a cluster-aware engine (engine.New(restConfig)) instead of the zero Engine
+	world := hx.NewWorld("memory")
+	kc, getter := hx.NewKube(world.Sim, 0)
+	cfg := &action.Configuration{KubeClient: kc, RESTClientGetter: getter, Releases: storage.Init(mem), Capabilities: chartutil.DefaultCapabilities.Copy()}
+	if a.NoGetter {
+		cfg = &action.Configuration{KubeClient: &kubefake.PrintingKubeClient{Out: io.Discard}, Releases: storage.Init(mem), Capabilities: chartutil.DefaultCapabilities}
+	}
 	setDry := func(dry *bool, opt *string, clientOnly *bool) {
 		switch a.DryRun {
 		case "client":
@@ -99,6 +108,9 @@ func cfJudgeAction(c *core.Ctx, w *cfWorld, a cfActCase) {
 	if a.DryRun != "" {
 		name += "[dry-run=" + a.DryRun + "]"
 	}
+	if !a.NoGetter {
+		name += "[cluster-aware]"
+	}
 	if a.EnableDNS {
 		// the recording resolver refuses every dial, so the lookup (and with it the render) fails here; what
 		// counts is that the resolver was reached: the positive control of this section
@@ -146,7 +158,9 @@ func cfActCases() []cfActCase {
 			}
 			for _, dns := range []bool{false, true} {
 				for _, nested := range []bool{false, true} {
-					out = append(out, cfActCase{Entry: entry, DryRun: dry, EnableDNS: dns, Nested: nested})
+					for _, ng := range []bool{false, true} {
+						out = append(out, cfActCase{Entry: entry, DryRun: dry, EnableDNS: dns, Nested: nested, NoGetter: ng})
+					}
 				}
 			}
 		}
